@@ -1,6 +1,7 @@
 package main
 
 import (
+	"os"
 	"fmt"
 	"go/types"
 	"strings"
@@ -18,6 +19,7 @@ var purePkgPrefixes = []string{
 	"github.com/milvus-io/milvus/pkg/util/funcutil.GetVirtualChannel", "google.golang.org/protobuf/proto.Marshal", "google.golang.org/protobuf/proto.Size",
 	"github.com/golang/protobuf/proto.Marshal", "github.com/golang/protobuf/proto.Size", "github.com/zilliztech/milvus-cdc/server/metrics",
 	"github.com/goccy/go-json.Marshal", "encoding/json.Marshal", "github.com/goccy/go-json.Unmarshal", "encoding/json.Unmarshal",
+	"github.com/goccy/go-json.NewEncoder", "encoding/json.NewEncoder", "io/ioutil.ReadAll", "io.ReadAll",
 	"github.com/milvus-io/milvus/pkg/util/lock", "github.com/milvus-io/milvus/pkg/util/typeutil", "github.com/milvus-io/milvus/pkg/util/funcutil",
 	"github.com/milvus-io/milvus/pkg/util/requestutil",
 	"github.com/milvus-io/milvus/pkg/util/retry.Attempts", "github.com/milvus-io/milvus/pkg/util/retry.Sleep", "github.com/milvus-io/milvus/pkg/util/retry.MaxSleepTime",
@@ -32,6 +34,10 @@ var msgstreamPureMethods = map[string]bool{"Type": true, "Size": true, "BeginTs"
 func (g *Gen) isPureExternal(name string) bool {
 	n := strings.TrimPrefix(name, "(*")
 	n = strings.TrimPrefix(n, "(")
+	if name == "(error).Error" {
+		g.trusted["assumed: Error() methods of error values have no effect on the verified state"] = true
+		return true
+	}
 	if strings.HasPrefix(n, "github.com/milvus-io/milvus/pkg/mq/msgstream.") && msgstreamPureMethods[lastPart(name)] {
 		return true
 	}
@@ -205,7 +211,11 @@ func (fc *FnCtx) call(ins ssa.Instruction, cc *ssa.CallCommon, res ssa.Value) {
 		for c := fc; c != nil; c = c.parent {
 			if c.c != nil && c.c.DynCall != nil {
 				fc.g.trusted["assumed: calls through function values in "+c.c.Key+" change only: "+strings.Join(c.c.DynCall.Modifies, ", ")] = true
-				setResult(fc.applyContract(ins, c.c.DynCall, c.c.Key+".dyncall", sig, nil, false, nil))
+				dc := c.c.DynCall
+				if sub, ok := dc.FuncParams[fmt.Sprintf("results%d", sig.Results().Len())]; ok {
+					dc = sub
+				}
+				setResult(fc.applyContract(ins, dc, c.c.Key+".dyncall", sig, nil, false, nil))
 				return
 			}
 		}
@@ -217,6 +227,17 @@ func (fc *FnCtx) call(ins ssa.Instruction, cc *ssa.CallCommon, res ssa.Value) {
 		return
 	}
 	c := g.findContract(callee)
+	if c != nil {
+		root := fc
+		for root.parent != nil {
+			root = root.parent
+		}
+		if root.c != nil && contains(root.c.Opaque, lastPart(strings.ReplaceAll(name, ")", ""))) {
+			// the caller's contract does not rely on this callee: unknown call (everything havocked, no precondition)
+			setResult(fc.unknownCall(ins, name, sig, false))
+			return
+		}
+	}
 	if c != nil && !c.Inline {
 		setResult(fc.applyContract(ins, c, name, callee.Signature, args, true, cc))
 		return
@@ -244,8 +265,19 @@ func (fc *FnCtx) unknownCall(ins ssa.Instruction, name string, sig *types.Signat
 	} else {
 		g.note("havoc (no contract): " + shortPkg(name))
 		keep := map[string]string{}
+		if cc := callCommonOf(ins); cc != nil && cc.IsInvoke() {
+			// methods of interfaces declared outside this repository (net/http, etcd, ...) are implemented
+			// outside it as well: they cannot reach the ghost state
+			if n, ok := cc.Value.Type().(*types.Named); ok && n.Obj().Pkg() != nil && !strings.HasPrefix(n.Obj().Pkg().Path(), "github.com/zilliztech/milvus-cdc") {
+				for _, k := range g.keyOrder {
+					if ki := g.keys[k]; ki.kind == "ghost" || ki.kind == "umap" {
+						keep[k] = g.get(fc.cur, k)
+					}
+				}
+			}
+		}
 		if cc := callCommonOf(ins); cc != nil && !cc.IsInvoke() {
-			if sc := cc.StaticCallee(); sc != nil && sc.Blocks == nil && sc.Pkg == nil {
+			if sc := cc.StaticCallee(); sc != nil && sc.Blocks == nil && (sc.Pkg == nil || !strings.HasPrefix(sc.Pkg.Pkg.Path(), "github.com/zilliztech/milvus-cdc")) {
 				// a function of another module cannot reach the ghost state (it changes only through contracts)
 				for _, k := range g.keyOrder {
 					if ki := g.keys[k]; ki.kind == "ghost" || ki.kind == "umap" {
@@ -254,10 +286,17 @@ func (fc *FnCtx) unknownCall(ins ssa.Instruction, name string, sig *types.Signat
 				}
 			}
 		}
+		if os.Getenv("GOVC_DEBUG") != "" {
+			cc := callCommonOf(ins)
+			if sc := cc.StaticCallee(); sc != nil { fmt.Fprintf(os.Stderr, "  sc=%s blocks=%v pkg=%v synth=%q\n", sc, sc.Blocks != nil, sc.Pkg, sc.Synthetic) }
+			fmt.Fprintf(os.Stderr, "unknownCall %s invoke=%v keep=%d type=%T\n", name, cc != nil && cc.IsInvoke(), len(keep), func() any { if cc != nil { return cc.Value.Type() }; return nil }())
+		}
+		before := fc.cur.clone()
 		g.havocAll(fc.cur, name)
 		for k, v := range keep {
 			fc.cur.m[k] = v
 		}
+		fc.restorePrivate(before)
 	}
 	var rs []Val
 	for i := 0; i < sig.Results().Len(); i++ {
@@ -378,21 +417,36 @@ func (e *Env) resolveModifies(entries []string) (targets []modTarget, all bool) 
 				if !ok {
 					cxFail("modifies %s: not a struct type", m)
 				}
+				g.markAlloc(types.NewPointer(T))
 				for i := 0; i < st.NumFields(); i++ {
 					targets = append(targets, modTarget{key: g.fieldKey(T, i), whole: true, fresh: true})
 				}
 			case strings.HasPrefix(x, "[]"):
 				T, _ := e.resolveType(x[2:])
+				g.markAlloc(types.NewSlice(T))
 				targets = append(targets, modTarget{key: g.arrKey(T), whole: true, fresh: true})
 			case strings.HasPrefix(x, "map["):
 				i := strings.Index(x, "]")
 				K, _ := e.resolveType(x[4:i])
 				V, _ := e.resolveType(x[i+1:])
 				kd, kv := g.mapKeys(types.NewMap(K, V))
+				g.markAlloc(types.NewMap(K, V))
 				targets = append(targets, modTarget{key: kd, whole: true, fresh: true}, modTarget{key: kv, whole: true, fresh: true})
 			default:
 				cxFail("modifies %s: use fresh(T.*), fresh([]T) or fresh(map[K]V)", m)
 			}
+			continue
+		}
+		if strings.HasPrefix(m, "maps(") && strings.HasSuffix(m, ")") {
+			// contents of every Go map of this type: maps(K;V)
+			kv := strings.Split(m[5:len(m)-1], ";")
+			if len(kv) != 2 {
+				cxFail("bad modifies %s (use maps(K;V))", m)
+			}
+			K, _ := e.resolveType(strings.TrimSpace(kv[0]))
+			V, _ := e.resolveType(strings.TrimSpace(kv[1]))
+			kd, kvk := g.mapKeys(types.NewMap(K, V))
+			targets = append(targets, modTarget{key: kd, whole: true}, modTarget{key: kvk, whole: true})
 			continue
 		}
 		if strings.HasPrefix(m, "umaps(") && strings.HasSuffix(m, ")") {
@@ -557,6 +611,7 @@ func (fc *FnCtx) applyContract(ins ssa.Instruction, c *Contract, name string, si
 			for k, v := range keep {
 				fc.cur.m[k] = v
 			}
+			fc.restorePrivate(old)
 			targets = nil
 		}
 		for _, t := range targets {
@@ -605,6 +660,7 @@ func (fc *FnCtx) applyContract(ins ssa.Instruction, c *Contract, name string, si
 				n = g.def(fc.prefix+"call."+short, g.sortOf(rt), "("+fn+" "+strings.Join(as, " ")+")")
 			}
 		} else if c.Fresh && i == 0 {
+			g.markAlloc(rt)
 			n = fc.newRef()
 		} else {
 			n = g.fresh(fc.prefix+"call."+short, g.sortOf(rt))
@@ -881,6 +937,7 @@ func (fc *FnCtx) appendBuiltin(ins ssa.Instruction, cc *ssa.CallCommon, res ssa.
 		fc.unsupported(ins, "append(bytes, string...)")
 		return
 	}
+	g.markAlloc(cc.Args[0].Type())
 	h := g.get(fc.cur, k)
 	total := g.def(fc.prefix+"app.len", "Int", fmt.Sprintf("(+ (slen %s) (slen %s))", s.t, t.t))
 	inplace := g.def(fc.prefix+"app.inplace", "Bool", fmt.Sprintf("(<= %s (scap %s))", total, s.t))
